@@ -14,6 +14,7 @@ CONSTANTS
   Ckpts = {"soft"}
   Moves = "gen"
   InitAlpha = "ctor"
+  CtorOpts = "all"
   AllowKF = TRUE
   Grads = {TRUE}
   SelHows = {"freeze_attr", "unfreeze_attr", "net_only", "nas_only", "net_and_nas"}
